@@ -24,12 +24,18 @@ type c03Scenario struct {
 	Kind     string `json:"kind"`     // failed lost killed exec-failure exec-failure+status agent-failure agent-failure+status internal-error basic-terminated
 	Instant  string `json:"instant"`  // idle | transition | late-reply | grace | sibling | after-reconnect | mixed
 	Delay    bool   `json:"delay"`    // watcher delay point on
+	// FailDelay: the task manager's own bookkeeping of an executor/agent failure is held up (delay points
+	// at the start of its goroutines), so that the task's terminal status update is processed first
+	FailDelay bool `json:"fail_delay,omitempty"`
 }
 
 func (sc c03Scenario) class() string {
 	k := "noncritical"
 	if sc.Critical {
 		k = "critical"
+	}
+	if sc.FailDelay {
+		return fmt.Sprintf("%s/%s/%s/%s+status-first", sc.State, k, sc.Kind, sc.Instant)
 	}
 	return fmt.Sprintf("%s/%s/%s/%s", sc.State, k, sc.Kind, sc.Instant)
 }
@@ -52,6 +58,12 @@ func c03Scenarios(c *vlib.Ctx) []c03Scenario {
 			out = append(out, c03Scenario{State: st, Critical: true, Kind: k, Instant: "late-reply", Delay: k == "lost"})
 		}
 	}
+	for _, st := range []string{"CONFIGURED", "RUNNING"} {
+		for _, k := range []string{"exec-failure+status", "agent-failure+status"} {
+			out = append(out, c03Scenario{State: st, Critical: true, Kind: k, Instant: "idle", FailDelay: true})
+		}
+	}
+	out = append(out, c03Scenario{State: "RUNNING", Critical: false, Kind: "exec-failure+status", Instant: "idle", FailDelay: true})
 	instants := []string{"transition", "grace", "sibling", "after-reconnect", "mixed", "late-reply"}
 	r := c.SubRand(303)
 	n := 18
@@ -134,8 +146,16 @@ func c03Run(c *vlib.Ctx, idx int, sc c03Scenario) {
 		{Name: "t4", Host: "host1", Critical: true, Mode: "direct"}, // last in child order: the victim of "mixed"
 	}}
 	opt := coresim.Options{Agents: stdAgents(3), Detectors: stdDetectors(3), Files: wf.Files()}
+	var points []string
 	if sc.Delay {
-		opt.Env = append(opt.Env, "VERIF_POINTS=env.wfwatch.afterRecv=sleep(20)")
+		points = append(points, "env.wfwatch.afterRecv=sleep(20)")
+	}
+	if sc.FailDelay {
+		points = append(points, "taskman.executorFailed.beforeStateUpdate=sleep(300)", "taskman.agentFailed.beforeStateUpdate=sleep(300)")
+		c.Count("faults_with_status_processed_first", 1)
+	}
+	if len(points) > 0 {
+		opt.Env = append(opt.Env, "VERIF_POINTS="+strings.Join(points, ";"))
 	}
 	s, err := coresim.Start(opt)
 	if err != nil {
